@@ -105,6 +105,10 @@ fn run16v(toks: &[&str], wk: &mut Wakers, out: &mut String, mut tok_end: impl Fn
         }
         let start = out.len();
         wk.mark();
+        if k % 4 == 2 {
+            // what a log line does: a sender and the receiver are formatted with {:?} — looking at a channel changes nothing
+            let _ = format!("{:?} {:?}", senders.iter().flatten().next(), rx);
+        }
         let b = t.as_bytes()[0];
         match b {
             b's' | b'c' | b'd' | b'x' => {
